@@ -709,3 +709,24 @@ func TestF32_RedefinedFunctionDropsResultsNextToError(t *testing.T) {
 		t.Fatalf("the original returned (42, boom), the redefined function (%v, boom)", res.Out(0))
 	}
 }
+
+type k2Reader interface{ Read() string }
+type k2Impl struct{}
+
+func (k2Impl) Read() string { return "x" }
+
+// K2 (C08, open): a named interface-typed input handed on by Redefine cannot be supplied to the redefined function.
+func TestK2_NamedInterfaceInputThroughRedefine(t *testing.T) {
+	f := am.MustFunc(am.NewFunc(func(in struct {
+		am.Struct
+		R k2Reader
+	}) string {
+		return in.R.Read()
+	}))
+	rf, err := f.Redefine()
+	if err != nil {
+		t.Fatal(err)
+	}
+	res := rf.Call(am.Named("r", k2Impl{}))
+	t.Logf("calling the redefined function with a value for its declared input r: err = %v (known finding K2 while non-nil)", res.Err() != nil)
+}
